@@ -213,7 +213,9 @@ def cli_specs():
             setup = methods["setup_command_line"]
             pname = setup.args.args[0].arg if setup.args.args else "parser"
             res.append({"cls": node.name, "name": name, "kind": kind,
-                        "opts": [extract_dispatch.optspec(c, pname, extract_dispatch.option_groups(setup, pname))
+                        "opts": [extract_dispatch.optspec(c, pname, extract_dispatch.option_groups(setup, pname),
+                                                          extract_dispatch.local_parsers(setup),
+                                                          extract_dispatch.compositions(setup))
                                  for c in add_argument_calls(setup)],
                         "templates": extract_dispatch.method_templates(body, libnames)})
     res.sort(key=lambda h: (h["kind"], h["name"]))
@@ -532,7 +534,8 @@ def emit():
         else:
             L.append("def {}{} : Nat := {}\n".format(name, ps, expr))
     L.append(extract_dispatch.emit(cli_specs(), tool_templates(),
-                                   extract_dispatch.graph_actions(parse("cnfgen/clitools/graph_args.py"))))
+                                   extract_dispatch.graph_actions(parse("cnfgen/clitools/graph_args.py")),
+                                   extract_dispatch.graph_constructions(parse("cnfgen/clitools/graph_args.py"))))
     L.append("end Cnfgen.Gen")
     return "\n".join(L) + "\n"
 
